@@ -22,6 +22,18 @@ def nontrivial(line, rec):
 
 
 def run(ctx):
+    # deep forests (paths and long-armed spiders with 260..700 arcs): the searches along the forest pass depth 255; judged
+    # through CMRtuTest with the digraph as witness (the expected "TU" is accepted at once, the certificate is only evaluated
+    # to refute another answer)
+    drng = ctx.rng.fork("deep-forest")
+    deep = []
+    for _ in range(24 if ctx.quick else 600):
+        M, w = gen.deep_forest_network(drng, 260 + drng.below(440), 60 + drng.below(140))
+        if M and M[0]:
+            c = gen.cfg(algorithm=0, ternary=1, wantSub=0)
+            deep.append("%s %s %s" % (gen.cfg_line(c), mat_line(M), w))
+    ctx.stream("tu_net", deep, "CMRtuTest on network matrices with deep forests (depth > 255)",
+               describe=lambda c: gen.TU_NET_CODES.get(c, str(c)), nontrivial=lambda l, r: True)
     ctx.stream("tu_net", gen.tu_net_lines(ctx.rng.fork("tu_net"), 800 if ctx.quick else 20000),
                "CMRtuTest on network matrices of every size, certified by their digraph (network => TU is proved: NetworkTU.v)",
                describe=lambda c: gen.TU_NET_CODES.get(c, str(c)), nontrivial=lambda l, r: True)
